@@ -434,7 +434,8 @@ class WorldGen:
                 fns.append(f2); slots.append((f, slot)); pos = slot + 1
             if inherited_len > pos and True:
                 pass
-        n_new = rng.randint(0 if inherited else 1, 3)
+        # (a block without functions is legal: `vftable {}`, with or without a declared size)
+        n_new = rng.randint(0 if (inherited or rng.random() < 0.1) else 1, 3)
         start_new = max(pos, inherited_len)
         for i in range(n_new):
             name = self.fresh('_v' if rng.random() < o.p_underscore else 'v')
